@@ -1,4 +1,74 @@
-From Coq Require Import NArith List.
-From FF Require Import Lib.Word Gen.Consts_mm_vmm Vmm.Pt Vmm.PtProofs.
+(** Non-vacuity of the C06 theorems and concrete runs of the model. *)
+From Coq Require Import NArith List Lia Bool.
+From FF Require Import Lib.Word Gen.Consts_mm_vmm Vmm.Pt Vmm.PtMem Vmm.PtArith Vmm.PtTree Vmm.PtMap Vmm.PtOps Vmm.PtTheorems
+     Vmm.PtInit Vmm.PtPdt Vmm.PtFault Vmm.PtCow Vmm.PtZero Vmm.PtTemp.
 Import ListNotations.
 Local Open Scope N_scope.
+
+Definition LO : N := 0x200000000.
+Definition boot : st := init_state LO 32 0 (map (fun k => LO + k) [1; 2; 3; 4; 5; 6; 7; 8; 9; 10; 11; 12]).
+
+Example C06_inv_nonvacuous : Inv boot LO LO (own_root LO).
+Proof.
+  apply Inv_init.
+  - reflexivity.
+  - unfold LO. change (2 ^ 40) with 1099511627776. lia.
+  - unfold ofr, LO. cbn. repeat constructor; cbn; intuition discriminate.
+  - intros f Hin Hz. unfold LO in *. cbn in Hin. intuition (subst; try lia).
+Qed.
+
+(** the invariant of zero_frame_inv is established by reserveZeroedFrame on the boot state *)
+Example C06_zinv_nonvacuous :
+  exists s' own1, reserve_zeroed boot = Ok (s', 0) /\ ZInv s' LO own1 /\ zf s' = LO + 1.
+Proof.
+  destruct (reserve_zeroed_spec boot LO (own_root LO) (LO + 1) (map (fun k => LO + k) [2; 3; 4; 5; 6; 7; 8; 9; 10; 11; 12]) C06_inv_nonvacuous)
+    as (s' & err & own1 & Hrun & _ & Hz & Hok).
+  - reflexivity.
+  - reflexivity.
+  - unfold LO. discriminate.
+  - intros q fl Hq. unfold translation.
+    assert (Hz: forall i, i <> 511 -> ent boot LO i = 0).
+    { intros i Hi. unfold boot, init_state, ent. cbn [mem]. rewrite rd_wr, rd_zero, N.eqb_refl.
+      destruct (N.eqb_spec i 511); [congruence | reflexivity]. }
+    rewrite (empty_space boot LO Hz q Hq). discriminate.
+  - assert (E: match reserve_zeroed boot with Ok (_, e) => e | Stray => 1 end = 0) by (vm_compute; reflexivity).
+    rewrite Hrun in E. subst err. destruct (Hok eq_refl) as (HZ & _).
+    exists s', own1. split; [exact Hrun|]. split; assumption.
+Qed.
+
+(** a copy-on-write fault on a page sharing the zero frame: resumes with a private writable zeroed copy;
+    a second page sharing the zero frame still maps it read-only; a fault on a writable page panics *)
+Example C06_cow_run :
+  match reserve_zeroed boot with
+  | Ok (s1, _) =>
+    match map_page 0x300000123 (LO + 1) 0x8000000000000201 s1 with
+    | Ok (s2, _) =>
+      match map_page 0x300000124 (LO + 1) 0x201 s2 with
+      | Ok (s3, _) =>
+        match page_fault 0x300000123abc s3 with
+        | Ok (s4, out) =>
+            out = 0 /\ translation s4 LO 0x300000123 = Some (LO + 8, 0x8000000000000003) /\
+            translation s4 LO 0x300000124 = Some (LO + 1, 0x201) /\ translation s4 LO temp_page = None /\
+            ent s4 (LO + 8) 17 = 0 /\ ent s4 (LO + 1) 17 = 0 /\
+            (match page_fault 0x300000123abc s4 with Ok (_, o) => o = PANIC + E_FAULT | Stray => False end) /\
+            map_page 0x300000125 (LO + 1) 3 s4 = Ok (s4, E_ZERO_RW)
+        | Stray => False
+        end
+      | Stray => False
+      end
+    | Stray => False
+    end
+  | Stray => False
+  end.
+Proof. vm_compute. repeat split; reflexivity. Qed.
+
+Example C06_cow_pre_nonvacuous :
+  match reserve_zeroed boot with
+  | Ok (s1, _) =>
+    match map_page 0x300000123 (LO + 1) 0x201 s1 with
+    | Ok (s2, _) => cow_pre s2 LO (page_from_addr 0x300000123abc) = Some ((LO + 1) * 4096 + 0x201)
+    | Stray => False
+    end
+  | Stray => False
+  end.
+Proof. vm_compute. reflexivity. Qed.
